@@ -84,7 +84,12 @@ func WriteFiles(dir string, files map[string]string) error {
 func BaseEnv() []string {
 	// a narrow terminal exported by the shell (as watch(1) or a preview pane do), a non-English locale, a pager:
 	// nothing of this is an input of the program, so no report may depend on it
-	return []string{"PATH=/usr/local/bin:/usr/bin:/bin", "HOME=/nonexistent-verif-home", "LANG=C", "COLUMNS=48", "LINES=12", "LC_ALL=tr_TR.UTF-8", "PAGER=cat"}
+	// plus the XDG base directories, and variables named like the program's flags that it does not document
+	// (only HR_DATABASE, HR_LOGFILE, HR_CONFIG, HR_DATE_FORMAT and HR_MAXDEPTH are), with false-like or empty values
+	return []string{"PATH=/usr/local/bin:/usr/bin:/bin", "HOME=/nonexistent-verif-home", "LANG=C", "COLUMNS=48", "LINES=12", "LC_ALL=tr_TR.UTF-8", "PAGER=cat",
+		"XDG_CONFIG_HOME=/nonexistent-verif-xdg/config", "XDG_DATA_HOME=/nonexistent-verif-xdg/data", "XDG_CACHE_HOME=/nonexistent-verif-xdg/cache",
+		"HR_SILENT=false", "HR_NO_COLOR=false", "HR_NO_DATABASE=false", "HR_NO_TOTALS=0", "HR_TOTALS_ONLY=", "HR_CSV=false", "HR_SHORTEN=0", "HR_COLLAPSE=false", "HR_COLLAPSE_LAST=",
+		"HR_DESC=false", "HR_GROUP_FOOD=0", "HR_USE_OLD_REG_REPORTER=false", "HR_TODAY=", "HR_BEGIN=", "HR_END=", "HR_SINGLE_ELEMENT=", "HR_SINGLE_FOOD=", "HR_INTERNAL_TEMPLATE_NAME="}
 }
 
 // ExecOpts are the knobs of an L1 run.
@@ -278,6 +283,9 @@ type FaultJob struct {
 	// number NestedAt (two reports alive in one process)
 	Nested   *FaultJob `json:"nested,omitempty"`
 	NestedAt int       `json:"nested_at,omitempty"`
+	// Parallel: jobs that run side by side in goroutines of the server process; their command lines are parsed
+	// one after the other, then each waits at its first file read until all have arrived
+	Parallel []FaultJob `json:"parallel,omitempty"`
 }
 
 type ReaderState struct {
@@ -299,15 +307,17 @@ type FaultRes struct {
 	Readers  []ReaderState `json:"readers,omitempty"`
 	Died     string        `json:"died,omitempty"`
 	Nested   *FaultRes     `json:"nested,omitempty"`
+	Parallel []FaultRes    `json:"parallel,omitempty"`
 }
 
 type job struct {
-	Fault *FaultJob         `json:"fault,omitempty"`
-	Args  []string          `json:"args"`
-	Env   map[string]string `json:"env,omitempty"`
-	Cwd   string            `json:"cwd,omitempty"`
-	Reps  int               `json:"reps,omitempty"`
-	Reuse bool              `json:"reuse,omitempty"`
+	Fault     *FaultJob         `json:"fault,omitempty"`
+	Args      []string          `json:"args"`
+	Env       map[string]string `json:"env,omitempty"`
+	Cwd       string            `json:"cwd,omitempty"`
+	Reps      int               `json:"reps,omitempty"`
+	Reuse     bool              `json:"reuse,omitempty"`
+	Cancelled bool              `json:"cancelled,omitempty"`
 }
 
 type response struct {
@@ -320,16 +330,18 @@ type response struct {
 // Server is one job-server process with its own scratch directory. Not safe
 // for concurrent use: each worker goroutine owns one.
 type Server struct {
-	Primed int
-	hr     string
-	Dir    string
-	cmd    *exec.Cmd
-	in     io.WriteCloser
-	out    *bufio.Reader
-	errBuf *bytes.Buffer
-	joblog *os.File
-	Jobs   int
-	Deaths int
+	// ExtraEnv is added to the environment of the server process (set before the first job)
+	ExtraEnv []string
+	Primed   int
+	hr       string
+	Dir      string
+	cmd      *exec.Cmd
+	in       io.WriteCloser
+	out      *bufio.Reader
+	errBuf   *bytes.Buffer
+	joblog   *os.File
+	Jobs     int
+	Deaths   int
 	// LastGor: goroutines alive in the server once the last job was over (0: the hook does not report it)
 	LastGor int
 }
@@ -351,7 +363,7 @@ func NewServer(hr, dir string) (*Server, error) {
 func (s *Server) start() error {
 	cmd := exec.Command(s.hr)
 	cmd.Dir = s.Dir
-	cmd.Env = append(BaseEnv(), "VERIF_SERVE=1")
+	cmd.Env = append(append(BaseEnv(), "VERIF_SERVE=1"), s.ExtraEnv...)
 	in, err := cmd.StdinPipe()
 	if err != nil {
 		return err
@@ -511,6 +523,19 @@ func (s *Server) App(args []string, env map[string]string, reps int) []Result {
 // itself keeps values taken from variables in the flag objects of an App value.
 func (s *Server) AppReused(args []string) Result {
 	resp, died := s.roundTrip(job{Args: args, Cwd: s.Dir, Reps: 1, Reuse: true}, 120*time.Second)
+	if died != "" {
+		return Result{Panic: died, Exit: -1}
+	}
+	if resp.Bad != "" || len(resp.Runs) == 0 {
+		return Result{Panic: "verif: bad job: " + resp.Bad, Exit: -1}
+	}
+	return resp.Runs[0]
+}
+
+// AppCancelled runs the production app once in-process through RunContext with a context that is already
+// cancelled (a caller whose own request was abandoned).
+func (s *Server) AppCancelled(args []string) Result {
+	resp, died := s.roundTrip(job{Args: args, Cwd: s.Dir, Reps: 1, Cancelled: true}, 120*time.Second)
 	if died != "" {
 		return Result{Panic: died, Exit: -1}
 	}
